@@ -290,6 +290,7 @@ type advFrame struct {
 	arr   simdjson.Iter
 	v     *ref.Value
 	key   []byte
+	into  *ref.Value // the same container read linearly from the member iterator (some members), or nil
 }
 
 // Adv walks with Iter.Advance, Root, Array/Object, Array.Iter and
@@ -434,14 +435,35 @@ func advValue(it *simdjson.Iter, t simdjson.Type, steps *int, bound int) (*ref.V
 				return nil, err
 			}
 			if et == simdjson.TypeNone {
-				done := top.v
+				done, lin := top.v, top.into
 				stack = stack[:len(stack)-1]
+				if lin != nil {
+					if d := ref.Diff(done, lin); d != "" {
+						return nil, fmt.Errorf("a member read through Object/Array differs from the same member walked with AdvanceInto from the iterator NextElement(Bytes) filled: %s", d)
+					}
+				}
 				attach(done)
 				continue
 			}
 			top.key = append([]byte{}, name...)
+			// a look ahead on the recycled iterator itself, not followed by an advance on it: a read
+			// that must leave nothing behind for the next member the iterator is pointed at
+			elemp.PeekNextTag()
 			elem := *elemp
+			var linear *ref.Value
+			if (et == simdjson.TypeObject || et == simdjson.TypeArray) && len(stack) <= 3 && *steps%3 == 0 {
+				// the member iterator's scope is this one value: walking it with AdvanceInto must
+				// give the same container as the Object/Array route below
+				lv, lerr := IntoValue(elem)
+				if lerr != nil {
+					return nil, fmt.Errorf("AdvanceInto walk of the member iterator NextElement(Bytes) filled: %v", lerr)
+				}
+				linear = lv
+			}
 			v, err := open(&elem, et)
+			if linear != nil && v == nil && err == nil {
+				stack[len(stack)-1].into = linear
+			}
 			if err != nil {
 				return nil, err
 			}
@@ -452,8 +474,13 @@ func advValue(it *simdjson.Iter, t simdjson.Type, steps *int, bound int) (*ref.V
 		}
 		et := top.arr.Advance()
 		if et == simdjson.TypeNone {
-			done := top.v
+			done, lin := top.v, top.into
 			stack = stack[:len(stack)-1]
+			if lin != nil {
+				if d := ref.Diff(done, lin); d != "" {
+					return nil, fmt.Errorf("a member read through Object/Array differs from the same member walked with AdvanceInto from the iterator NextElement(Bytes) filled: %s", d)
+				}
+			}
 			attach(done)
 			continue
 		}
